@@ -13,7 +13,8 @@ from checks import c14_cover as cv
 THEOREMS = ["C14_whole_segment", "C14_rewrite_frame", "C14_roundtrip", "C14_history", "C14_history_returns", "C14_spec",
             "C14_spec_locale", "C14_valid_decidable", "C14_valid_nonvacuous", "C14_old_refuted",
             "C14_first_match_frame", "C14_first_match_roundtrip", "C14_first_match_history", "C14_first_match_spec",
-            "C14_unique_is_first", "C14_first_match_example"]
+            "C14_unique_is_first", "C14_first_match_example", "C14_explicit_prefix_frame", "C14_explicit_prefix_history",
+            "C14_explicit_prefix_spec", "C14_explicit_prefix_example"]
 PROPS = "theories/Props/C14.v"
 REGISTRY = {
     "level": "proof",
@@ -235,10 +236,11 @@ def corpus_overlap():
     about = ("S", ["about", "a-propos", "ueber"])
     tab = [[root], [root, about], [root, ("P", "page")], [root, ("W", "any")]]
     out = []
-    for a, b, path in ((0, 1, "/about"), (1, 0, "/fr/a-propos"), (1, 2, "/fr/a-propos/")):
-        out.append({"corpus": True, "structured": True, "names": names, "dflt": 0, "bsegs": [], "base": "/", "atab": tab,
-                    "inst": [about], "a": a, "b": b, "old": a, "path": path, "search": "", "hash": "",
-                    "intent": {"slashes": "trailing" if path.endswith("/") else "normal", "base": "root", "kinds": ["localized"],
+    for a, b, path in ((0, 1, "/about"), (1, 0, "/fr/a-propos"), (1, 2, "/fr/a-propos/"), (0, 1, "/en/about"), (0, 2, "/en")):
+        out.append({"corpus": True, "structured": True, "explicit": path.startswith("/en"), "names": names, "dflt": 0, "bsegs": [], "base": "/", "atab": tab,
+                    "inst": [] if path == "/en" else [about], "a": a, "b": b, "old": a, "path": path, "search": "", "hash": "",
+                    "intent": {"slashes": "trailing" if path.endswith("/") else "normal", "base": "root",
+                               "kinds": [] if path == "/en" else ["localized"],
                                "overlap": "first-of-many"}})
     return out
 
